@@ -19,6 +19,14 @@ fn main() {
     compare(&args[2], &args[3]);
     return;
   }
+  if args[1] == "c16child" {
+    props::c16::child_main(&args[2]);
+    return;
+  }
+  if args[1] == "c16probe" {
+    props::c16::probe(&args[2]);
+    return;
+  }
   let prop = args[1].clone();
   let mut cfg = RunCfg {
     seed: 1,
